@@ -78,6 +78,9 @@ open Neatvi.Props.C15 in
 theorem ecGlob_ok (f : Nat) (ed ed' : Ed) (loc cmd arg : Bytes) (r : Int) (hbody : LineOkAt f (reRead arg).2) (hi : EdOk ed)
     (h : ecGlob (f + 1) ed loc cmd arg = some (r, ed')) : EdOk ed' := by
   rw [ecGlob_eq] at h
+  by_cases hdep : ed.xgdep ≥ 7
+  · rw [if_pos hdep] at h; cases h; exact hi.to (by rfl)
+  rw [if_neg hdep] at h
   split at h
   · cases h
   · rename_i rc b e ed1 hr
